@@ -220,22 +220,81 @@ func (s *server) serveTCP(l *net.TCPListener) {
 	}
 }
 
+// A wire kind is "<base>[+<mod>]*".  The base says how the reply relates to the
+// query, the modifiers set header flags / sections on top of it, so that every
+// (mis)match can be combined with every flag the client code looks at or might
+// be tempted to look at:
+//
+//	bases  ok (matching reply)   cs (name in another case)   id nm ty q2 q0 (mismatches)
+//	       bad (5 junk bytes)    pfx (datagram cut inside the question)
+//	       net (socket closed)   dr (silently dropped)        eof (TCP: close after the request)
+//	mods   tc (TC bit)  sf nx rf (rcode SERVFAIL / NXDOMAIN / REFUSED)  na (no answer records)
+//	       aa (AA bit)  qr (QR bit cleared)  op (opcode NOTIFY)
+//
+// "tc" and "sf" alone are the legacy spellings of "ok+tc" and "ok+sf".
+func kindParts(kind string) (base string, mods []string) {
+	parts := strings.Split(kind, "+")
+	base, mods = parts[0], parts[1:]
+	switch base {
+	case "tc", "sf":
+		return "ok", append([]string{base}, mods...)
+	}
+
+	return base, mods
+}
+
+func kindHas(kind, mod string) bool {
+	_, mods := kindParts(kind)
+	for _, m := range mods {
+		if m == mod {
+			return true
+		}
+	}
+
+	return false
+}
+
+// kindMatches reports whether the scripted reply is one for the query asked (id,
+// single question, its type and its name up to case).  This is the oracle's own
+// reading of the script; it does not depend on any flag.
+func kindMatches(kind string) bool {
+	b, _ := kindParts(kind)
+
+	return b == "ok" || b == "cs"
+}
+
+// kindGarbage reports whether something is received that is not a reply to the
+// query asked.
+func kindGarbage(kind string) bool {
+	switch b, _ := kindParts(kind); b {
+	case "id", "nm", "ty", "q2", "q0", "bad", "pfx":
+		return true
+	}
+
+	return false
+}
+
+func kindNetErr(kind string) bool {
+	b, _ := kindParts(kind)
+
+	return b == "net" || b == "dr"
+}
+
+// kindRcodeOK: the reply, if it is one, carries NOERROR.
+func kindRcodeOK(kind string) bool {
+	return !kindHas(kind, "sf") && !kindHas(kind, "nx") && !kindHas(kind, "rf")
+}
+
 // buildReply returns the bytes a server sends for a wire kind (nil: nothing).
 func buildReply(req *dns.Msg, kind string, tok int) []byte {
 	resp := reply(req, tok)
-	switch kind {
+	base, mods := kindParts(kind)
+	switch base {
 	case "ok":
-	case "sf":
-		resp.Rcode = dns.RcodeServerFailure
-	case "tc":
-		resp.Truncated = true
 	case "id":
 		resp.Id++
 	case "nm":
 		resp.Question[0].Name = "zz." + strings.TrimPrefix(resp.Question[0].Name, ".")
-		if resp.Question[0].Name == "zz." {
-			resp.Question[0].Name = "zz."
-		}
 	case "cs":
 		resp.Question[0].Name = strings.ToUpper(resp.Question[0].Name)
 	case "ty":
@@ -266,6 +325,28 @@ func buildReply(req *dns.Msg, kind string, tok int) []byte {
 	default: // dr, net, eof
 		return nil
 	}
+	for _, m := range mods {
+		switch m {
+		case "tc":
+			resp.Truncated = true
+		case "sf":
+			resp.Rcode = dns.RcodeServerFailure
+		case "nx":
+			resp.Rcode = dns.RcodeNameError
+		case "rf":
+			resp.Rcode = dns.RcodeRefused
+		case "na":
+			resp.Answer = nil
+		case "aa":
+			resp.Authoritative = true
+		case "qr":
+			resp.Response = false
+		case "op":
+			resp.Opcode = dns.OpcodeNotify
+		default:
+			panic("c17: unknown wire modifier " + m + " in " + kind)
+		}
+	}
 	b, err := resp.Pack()
 	if err != nil {
 		panic(err)
@@ -274,18 +355,32 @@ func buildReply(req *dns.Msg, kind string, tok int) []byte {
 	return b
 }
 
-// modelWire maps a scripted behaviour to the model's wire vocabulary.
+// modelWire maps a scripted behaviour to the model's wire vocabulary: the base
+// plus the modifiers the model's Msg has a field for (tc; na makes the token 0).
+// Rcode, AA, QR and opcode have no counterpart in the model, which thereby
+// claims that they have no influence on what Exchange does.
 func modelWire(kind string) string {
-	switch kind {
-	case "sf":
-		return "ok"
+	base, mods := kindParts(kind)
+	switch base {
 	case "dr":
 		return "net"
 	case "pfx":
 		return "bad"
-	default:
-		return kind
+	case "bad", "net", "eof":
+		return base
 	}
+	out := base
+	for _, m := range []string{"tc", "na"} {
+		for _, x := range mods {
+			if x == m {
+				out += "+" + m
+
+				break
+			}
+		}
+	}
+
+	return out
 }
 
 // ---------------------------------------------------------------------------
@@ -307,33 +402,57 @@ func plainCampaign(o *hlib.Opts, r *hlib.Result, m *hlib.Model) {
 		}
 	}()
 
-	ukinds := []string{"ok", "ok", "ok", "cs", "sf", "tc", "tc", "id", "nm", "ty", "q2", "q0", "bad", "net", "net", "pfx"}
-	tkinds := []string{"ok", "ok", "ok", "cs", "sf", "tc", "id", "nm", "ty", "q2", "q0", "bad", "net", "net", "eof", "eof", "pfx"}
+	// Every base that is a message, with every set of header modifiers of the
+	// pool: a mismatch must be rejected whatever else the reply claims about
+	// itself, and a match must be accepted.
+	msgBases := []string{"ok", "cs", "id", "nm", "ty", "q2", "q0"}
+	modSets := []string{"", "+tc", "+sf", "+na", "+tc+na", "+tc+rf", "+nx+aa", "+qr+op", "+tc+qr"}
+	var msgKinds []string
+	for _, b := range msgBases {
+		for _, ms := range modSets {
+			msgKinds = append(msgKinds, b+ms)
+		}
+	}
+	ukindsFull := append(append([]string{}, msgKinds...), "bad", "net", "pfx")
+	tkindsFull := append(append([]string{}, msgKinds...), "bad", "net", "eof", "pfx")
+	// The other transport takes a few representative behaviours.
+	ukindsCore := []string{"ok", "ok+tc", "id", "id+tc", "nm+tc+na", "net", "bad"}
+	tkindsCore := []string{"ok", "id", "ty+tc", "net", "eof"}
+	// Random cases: plain behaviours more often than decorated ones.
+	ukinds := append(append([]string{"ok", "ok", "ok", "ok", "cs", "ok+tc", "ok+tc", "id", "nm", "ty", "q2", "q0", "net", "net", "bad", "pfx"},
+		ukindsFull...), ukindsCore...)
+	tkinds := append(append([]string{"ok", "ok", "ok", "ok", "cs", "ok+tc", "id", "nm", "ty", "q2", "q0", "net", "net", "eof", "eof", "bad", "pfx"},
+		tkindsFull...), tkindsCore...)
 	names := []string{"ab.", "abcdef.example.", "x.y.z.example.org."}
-	n := 700
+	n := 3200
 	drops := 6
 	if o.Thorough() {
-		n, drops = 5000, 40
+		n, drops = 12000, 40
 	}
 
 	type pcase struct {
-		net, uk, tk int
-		name       string
+		net    int
+		uk, tk string
+		name   string
 	}
 	var cases []pcase
-	// All combinations once, then random ones.
+	// Structured part: per network mode, every UDP behaviour against the core
+	// TCP ones and every TCP behaviour against the core UDP ones.
 	for ni := range nets {
-		for ui := range ukinds {
-			for ti := range tkinds {
-				if (ui > 0 && ukinds[ui] == ukinds[ui-1]) || (ti > 0 && tkinds[ti] == tkinds[ti-1]) {
-					continue
-				}
-				cases = append(cases, pcase{ni, ui, ti, names[(ui+ti)%len(names)]})
+		for ui, uk := range ukindsFull {
+			for ti, tk := range tkindsCore {
+				cases = append(cases, pcase{ni, uk, tk, names[(ui+ti)%len(names)]})
+			}
+		}
+		for ti, tk := range tkindsFull {
+			for ui, uk := range ukindsCore {
+				cases = append(cases, pcase{ni, uk, tk, names[(ui+ti)%len(names)]})
 			}
 		}
 	}
+	r.Count(fmt.Sprintf("plain.structured_cases=%d", len(cases)))
 	for len(cases) < n {
-		cases = append(cases, pcase{rng.IntN(3), rng.IntN(len(ukinds)), rng.IntN(len(tkinds)), names[rng.IntN(len(names))]})
+		cases = append(cases, pcase{rng.IntN(3), ukinds[rng.IntN(len(ukinds))], tkinds[rng.IntN(len(tkinds))], names[rng.IntN(len(names))]})
 	}
 
 	type row struct {
@@ -361,32 +480,47 @@ func plainCampaign(o *hlib.Opts, r *hlib.Result, m *hlib.Model) {
 			line: fmt.Sprintf("x %s %s %s", netNames[c.net], modelWire(uk), modelWire(tk)),
 			obs:  got + " tcp=" + b2s(nw == forward.NetworkTCP),
 		}
-		// Property oracle, clause e: an accepted reply is one that matches.
+		// Property oracle, clause e: an accepted reply is one that matches.  First
+		// on the returned message itself, then on what the server was scripted
+		// to send over the transport the reply is said to come from.
 		if err == nil && resp != nil {
 			used := uk
 			if nw == forward.NetworkTCP {
 				used = tk
 			}
-			switch used {
-			case "ok", "cs", "sf", "tc":
+			fields := resp.Id == req.Id && len(resp.Question) == 1 && resp.Question[0].Qtype == dns.TypeA &&
+				asciiLower(resp.Question[0].Name) == asciiLower(c.name)
+			base, _ := kindParts(used)
+			switch {
+			case base == "pfx":
+				rw.sig = "truncated-reply-completed-from-buffer-residue"
+				rw.what = fmt.Sprintf("query %s A over %s: the server sent only the first bytes of a reply (cut inside the question section); "+
+					"UpstreamPlain accepted it as a valid response with question %v", c.name, nw, resp.Question)
+			case !fields || !kindMatches(used):
+				rw.sig = "exchange-returned-mismatching-reply"
+				rw.what = fmt.Sprintf("query %s A id %d to a %s upstream, server scripted udp=%q tcp=%q: Exchange returned (over %s) a reply "+
+					"that does not match the query: id %d, questions %v, truncated=%v, rcode=%d",
+					c.name, req.Id, netNames[c.net], uk, tk, nw, resp.Id, resp.Question, resp.Truncated, resp.Rcode)
+			default:
 				want := 1
 				if nw == forward.NetworkTCP {
 					want = 2
 				}
+				if kindHas(used, "na") {
+					want = 0
+				}
 				if respTokAny(resp) != want {
 					rw.sig, rw.what = "reply-from-other-transport", fmt.Sprintf("%s: accepted reply carries token %d, want %d", rw.line, respTokAny(resp), want)
 				}
-			case "pfx":
-				rw.sig = "truncated-reply-completed-from-buffer-residue"
-				rw.what = fmt.Sprintf("query %s A over %s: the server sent only the first bytes of a reply (cut inside the question section); "+
-					"UpstreamPlain accepted it as a valid response with question %v", c.name, nw, resp.Question)
-			default:
-				rw.sig = "reply-accepted-with-mismatch"
-				rw.what = fmt.Sprintf("%s: a reply of kind %q was accepted: %v", rw.line, used, resp.Question)
 			}
 		}
-		if err != nil && (c.net != 2 && (uk == "ok" || uk == "cs" || uk == "sf")) {
+		// Sanity in the other direction: a matching reply on the transport that
+		// decides is not thrown away.
+		if err != nil && c.net != 2 && kindMatches(uk) && (c.net == 1 || !kindHas(uk, "tc")) {
 			rw.sig, rw.what = "matching-reply-rejected", fmt.Sprintf("%s: matching UDP reply rejected: %v", rw.line, err)
+		}
+		if err != nil && c.net == 2 && kindMatches(tk) {
+			rw.sig, rw.what = "matching-reply-rejected", fmt.Sprintf("%s: matching TCP reply rejected: %v", rw.line, err)
 		}
 
 		return rw
@@ -394,14 +528,17 @@ func plainCampaign(o *hlib.Opts, r *hlib.Result, m *hlib.Model) {
 
 	var lines, obs []string
 	for _, c := range cases {
-		uk, tk := ukinds[c.uk], tkinds[c.tk]
+		uk, tk := c.uk, c.tk
 		// A silent drop costs a timeout: use it sparingly.
 		if drops > 0 && rng.IntN(n/(drops+1)+1) == 0 {
 			drops--
-			if uk == "net" || rng.IntN(2) == 0 {
+			switch {
+			case uk == "net" || rng.IntN(3) == 0:
 				uk = "dr"
-			} else {
-				uk, tk = "tc", "dr"
+			case rng.IntN(2) == 0:
+				uk, tk = "ok+tc", "dr"
+			default:
+				uk, tk = "id+tc", "dr"
 			}
 		}
 		rw := eval(c, uk, tk)
@@ -414,6 +551,12 @@ func plainCampaign(o *hlib.Opts, r *hlib.Result, m *hlib.Model) {
 		}
 		if uk == "pfx" || tk == "pfx" {
 			r.Count("plain.cut_reply:" + strings.Fields(rw.obs)[0])
+		}
+		if kindGarbage(uk) && kindHas(uk, "tc") {
+			r.Count("plain." + netNames[c.net] + ".udp_mismatch_with_tc:" + strings.TrimRight(strings.Fields(rw.obs)[0], "0123456789"))
+		}
+		if kindGarbage(tk) && len(tk) > 3 && c.net == 2 {
+			r.Count("plain.tcp.tcp_mismatch_with_flags:" + strings.TrimRight(strings.Fields(rw.obs)[0], "0123456789"))
 		}
 		if rw.sig != "" {
 			r.Violate(rw.sig, rw.what, map[string]any{"campaign": "plain", "net": netNames[c.net], "udp": uk, "tcp": tk, "name": c.name})
@@ -446,6 +589,7 @@ func respTokAny(resp *dns.Msg) int {
 
 type sockWorld struct {
 	h     *forward.Handler
+	s     *sched
 	mains []*server
 	fbs   []*server
 
@@ -476,8 +620,17 @@ func (w *sockWorld) OnForwardRequest(_ context.Context, ups forward.Upstream, _,
 func (w *sockWorld) OnUpstreamStatusChanged(_ forward.Upstream, _, _ bool) {}
 
 func newSockWorld(s *sched, pool []*server) *sockWorld {
-	w := &sockWorld{byAddr: map[string]call{}}
+	w := &sockWorld{byAddr: map[string]call{}, s: s}
 	var mc, fc []*forward.UpstreamPlainConfig
+	// upsName is UpstreamPlain.String() for the configuration.
+	upsName := func(nw forward.Network, a netip.AddrPort) string {
+		if nw == forward.NetworkAny {
+			return a.String()
+		}
+
+		return fmt.Sprintf("%s://%s", nw, a)
+	}
+	netw := map[string]forward.Network{"any": forward.NetworkAny, "udp": forward.NetworkUDP, "tcp": forward.NetworkTCP}
 	for i := 0; i < s.NMain; i++ {
 		srv := pool[i]
 		idx := i
@@ -485,8 +638,9 @@ func newSockWorld(s *sched, pool []*server) *sockWorld {
 		srv.onProbe = func() { w.add(call{idx: idx, probe: true}) }
 		srv.mu.Unlock()
 		w.mains = append(w.mains, srv)
-		w.byAddr[srv.addr().String()] = call{idx: i}
-		mc = append(mc, &forward.UpstreamPlainConfig{Network: forward.NetworkAny, Address: srv.addr(), Timeout: upsTimeout})
+		nw := netw[s.netOf(false, i)]
+		w.byAddr[upsName(nw, srv.addr())] = call{idx: i}
+		mc = append(mc, &forward.UpstreamPlainConfig{Network: nw, Address: srv.addr(), Timeout: upsTimeout})
 	}
 	for i := 0; i < s.NFb; i++ {
 		srv := pool[3+i]
@@ -495,8 +649,9 @@ func newSockWorld(s *sched, pool []*server) *sockWorld {
 		srv.onProbe = func() { w.add(call{fb: true, idx: idx, probe: true}) }
 		srv.mu.Unlock()
 		w.fbs = append(w.fbs, srv)
-		w.byAddr[srv.addr().String()] = call{fb: true, idx: i}
-		fc = append(fc, &forward.UpstreamPlainConfig{Network: forward.NetworkAny, Address: srv.addr(), Timeout: upsTimeout})
+		nw := netw[s.netOf(true, i)]
+		w.byAddr[upsName(nw, srv.addr())] = call{fb: true, idx: i}
+		fc = append(fc, &forward.UpstreamPlainConfig{Network: nw, Address: srv.addr(), Timeout: upsTimeout})
 	}
 	w.h = forward.NewHandler(&forward.HandlerConfig{
 		Logger:                     discard,
@@ -540,41 +695,104 @@ func (w *sockWorld) takeLog() (l []call) {
 	return l
 }
 
-func (w *sockWorld) modelTok(beh string, tok int) string {
+func (w *sockWorld) modelTok(fb bool, idx int, beh string, tok int) string {
 	u, t := split(beh)
 
-	return fmt.Sprintf("w.any.%s.%s.%d", modelWire(u), modelWire(t), tok)
+	return fmt.Sprintf("w.%s.%s.%s.%d", w.s.netOf(fb, idx), modelWire(u), modelWire(t), tok)
 }
 
-func (w *sockWorld) classify(beh string) string {
-	switch u, t := split(beh); {
-	case u == "ok" || u == "cs" || u == "sf":
-		return "reply"
-	case u == "tc" && (t == "ok" || t == "cs" || t == "tc"):
-		return "reply"
-	case u == "net" || u == "dr":
-		return "net"
-	case u == t && (u == "id" || u == "nm" || u == "ty" || u == "q2" || u == "q0" || u == "bad" || u == "pfx"):
-		return "other"
+// flow is the oracle's reading of what an upstream configured for network nw
+// and scripted with beh does to one request: "reply" (a reply matching the
+// request reaches the caller; over is the scripted kind of the transport it
+// came by), "net" (no transport usable: network error), "other" (only garbage
+// was received) or "?" (anything the oracle prefers not to judge).  It is
+// written from the documented behaviour of a plain upstream (UDP first unless
+// TCP-only; TCP after a truncated UDP reply unless UDP-only; TCP after a UDP
+// reply that is not one to this request), not from the model.
+func flow(nw, beh string) (res, over string) {
+	u, t := split(beh)
+	viaTCP := func() (string, string) {
+		switch {
+		case kindMatches(t):
+			return "reply", t
+		case kindNetErr(t):
+			return "net", ""
+		case kindGarbage(t):
+			return "other", ""
+		default: // eof
+			return "?", ""
+		}
+	}
+	switch {
+	case nw == "tcp":
+		return viaTCP()
+	case kindMatches(u) && (nw == "udp" || !kindHas(u, "tc")):
+		return "reply", u
+	case kindMatches(u):
+		// Truncated: whatever TCP gives, except that a network error there is
+		// a composite the oracle leaves alone.
+		if r, o := viaTCP(); r == "reply" || r == "other" {
+			return r, o
+		}
+
+		return "?", ""
+	case kindNetErr(u):
+		return "net", ""
+	case kindGarbage(u):
+		if r, o := viaTCP(); r == "other" {
+			return r, o
+		} else if r == "reply" {
+			// A wrong UDP reply followed by a right TCP one: accepted by the
+			// code as is; the property neither demands nor forbids it.
+			return "?", o
+		}
+
+		return "?", ""
 	default:
-		return "?"
+		return "?", ""
 	}
 }
 
-func (w *sockWorld) probeOK(beh string) bool {
-	switch beh {
-	case "ok/ok", "cs/ok", "tc/ok", "id/ok", "ok/net":
-		return true
+func (w *sockWorld) classify(fb bool, idx int, beh string) string {
+	res, over := flow(w.s.netOf(fb, idx), beh)
+	if res == "reply" && kindHas(over, "na") {
+		// no token to recognise the reply by
+		return "?"
+	}
+
+	return res
+}
+
+// probeOK: the probe gets a matching NOERROR reply on the transport that
+// decides.  A wrong UDP reply followed by a right TCP one counts as the code
+// has it (a success); behaviours the oracle cannot judge are not in the pools.
+func (w *sockWorld) probeOK(idx int, beh string) bool {
+	res, over := flow(w.s.netOf(false, idx), beh)
+	switch {
+	case res == "reply":
+		return kindRcodeOK(over)
+	case res == "?" && over != "":
+		return kindRcodeOK(over)
 	default:
 		return false
 	}
 }
 
 var (
+	// The first entry is the healthy behaviour, the last one is slow (a timeout).
+	// Probe behaviours never close a socket ("net"): which upstreams were probed
+	// is seen by the servers, and a closed socket sees nothing.
+	// Mismatches come bare and decorated with the flags that steer the client
+	// (tc) or that it might be tempted to trust (rcode, empty answer, aa).
 	sockQ = []string{"ok/ok", "ok/net", "cs/ok", "tc/ok", "tc/tc", "net/net", "net/net", "net/ok", "tc/net", "id/ok", "id/id",
-		"nm/nm", "ty/ty", "q2/q2", "q0/q0", "bad/bad", "tc/eof", "id/net", "bad/ok", "sf/sf", "pfx/pfx", "pfx/net", "dr/ok"}
-	sockFQ = []string{"ok/ok", "ok/ok", "tc/ok", "net/net", "id/id", "nm/ok", "tc/eof", "id/net", "dr/dr"}
-	sockP  = []string{"ok/ok", "ok/ok", "sf/sf", "sf/sf", "id/id", "tc/ok", "tc/sf", "id/ok", "cs/ok", "bad/bad", "tc/eof", "dr/dr"}
+		"nm/nm", "ty/ty", "q2/q2", "q0/q0", "bad/bad", "tc/eof", "id/net", "bad/ok", "sf/sf", "pfx/pfx", "pfx/net",
+		"id+tc/ok", "id+tc/net", "id+tc/id+tc", "nm+tc/nm", "ty+tc+na/ty", "q2+tc/q2+tc", "q0+tc+rf/net", "ok+tc/id", "cs+tc/cs",
+		"id+sf/id+sf", "nm+na/nm+na", "id+tc+na/net", "ok+nx+aa/ok", "net/id+tc", "ok/nm+tc", "dr/ok"}
+	sockFQ = []string{"ok/ok", "ok/ok", "tc/ok", "net/net", "id/id", "nm/ok", "tc/eof", "id/net",
+		"id+tc/net", "nm+tc/nm+tc", "ok+tc/ok", "ty+tc/ok", "net/id+tc", "dr/dr"}
+	sockP = []string{"ok/ok", "ok/ok", "sf/sf", "sf/sf", "id/id", "tc/ok", "tc/sf", "id/ok", "cs/ok", "bad/bad", "tc/eof",
+		"id+tc/id", "nm+tc/id", "ty+tc+na/bad", "id+tc/id+tc", "q2+tc/ok", "ok+tc/ok+sf", "ok+tc/ok", "ok+nx/ok", "ok/nm+tc", "dr/dr"}
+	sockNets = []string{"any", "any", "any", "udp", "udp", "tcp"}
 )
 
 func socketCampaign(o *hlib.Opts, r *hlib.Result, m *hlib.Model) {
@@ -589,9 +807,9 @@ func socketCampaign(o *hlib.Opts, r *hlib.Result, m *hlib.Model) {
 		}
 	}()
 	mk := func(s *sched) world { return newSockWorld(s, pool) }
-	n := 160
+	n := 300
 	if o.Thorough() {
-		n = 1200
+		n = 2000
 	}
 	// The slow behaviours are the last entries: thin them out.
 	thin := func(pool []string) []string {
@@ -605,6 +823,19 @@ func socketCampaign(o *hlib.Opts, r *hlib.Result, m *hlib.Model) {
 	qm, qf, pm := thin(sockQ), thin(sockFQ), thin(sockP)
 	for i := 0; i < n; i++ {
 		s := genSched(rng, qm, qf, pm, 3, 2, 12)
+		// A third of the schedules keep the default network everywhere, the
+		// others mix UDP-only, TCP-only and UDP-then-TCP upstreams.
+		if i%3 != 0 {
+			for u := 0; u < s.NMain; u++ {
+				s.MainNet = append(s.MainNet, sockNets[rng.IntN(len(sockNets))])
+			}
+			for f := 0; f < s.NFb; f++ {
+				s.FbNet = append(s.FbNet, sockNets[rng.IntN(len(sockNets))])
+			}
+		}
+		for u := 0; u < s.NMain; u++ {
+			r.Count("socket.main_net=" + s.netOf(false, u))
+		}
 		evalSchedule(r, m, "socket", s, mk, 2)
 	}
 }
